@@ -56,3 +56,24 @@ claim("C06", "exhaustive enumeration of ordered operator pairs (triples in the t
       "Trusts the reference precedence parser in pbt/oracles/feel_syntax.py (transcribed from feel.y's declarations, calibrated against the "
       "pinned tables). Names are single words bound in the parsing scope; type names followed by words and a few words the lexer treats "
       "specially are constructed around and counted.")
+
+claim("C14", "enumerated literal spaces (every whole-minute offset, every zone id known to both tz databases, month x day validity grid, fraction digit patterns, duration field grid, single-character corruptions) + generated literals; oracle: independent lexical grammar/value model, component comparison in integer nanoseconds, print/read-back round trip",
+      "Exploration with exhaustive sub-spaces (offsets by whole minutes, zone identifiers, calendar validity grid): every literal goes "
+      "through date()/time()/date and time()/duration(), @-literals and the xsd constructors; the value's components, its text and the "
+      "re-read value are compared with a reference model; corrupted literals must be null.",
+      "Trusts pbt/oracles/temporal_cal.py (self-tested against CPython datetime inside 1..9999) and the intersection of the zone databases of "
+      "chrono-tz 0.6.3 and system tzdata. Forms on which XSD/FEEL are silent are labelled unspecified and only round-tripped.")
+
+claim("C15", "enumerated calendar (every day of the sampled/all years -1..2400, component sweeps) + generated date/date-time/duration tuples against an independent proleptic-Gregorian and UTC-instant model",
+      "Exploration with exhaustive sub-spaces: validity, weekday and components for every day of the enumerated years; date(y,m,d) "
+      "component sweep; ordering/equality/between for sampled dates up to +-999999999; date-time comparison and subtraction in exact "
+      "nanoseconds with explicit offsets and curated zones kept 4 h away from transitions; months-between; duration arithmetic.",
+      "Trusts own day-number arithmetic (cross-checked against datetime) and zoneinfo for the curated zones inside 1980-2020; zone rules "
+      "that differ between tz database releases are excluded.")
+
+claim("C08", "generated argument tuples per built-in (39 functions) + exhaustive position x length grids and arity sweeps, differential against independent reference implementations; named = positional metamorphic relation",
+      "Exploration: every built-in of the statement is evaluated on thousands of generated tuples (strings over ASCII/BMP/supplementary "
+      "characters, lists 0..8 with duplicates/nulls/nesting, every position and length around the boundaries, every arity) positionally "
+      "and with named parameters; results compared with a reference implementation written from DMN 1.3 tables 72-76.",
+      "Trusts pbt/oracles/bifs_ref.py (own regex matcher for the common sub-grammar, cross-checked against CPython re). Argument classes "
+      "the specification does not decide are labelled unspecified and only checked for totality and named == positional.")
